@@ -17,6 +17,7 @@ let grammar_obs (img_hex : string) (spec : string) : string =
   let rec sec () : sspec =
     match next () with
     | "SL" -> let t = num () in let b = byt () in SLeaf (t, b)
+    | "SX" -> let t = num () in let b = byt () in SLeafL (t, b)
     | "SG" -> let g = byt () in let a = num () in let e = byt () in let p = byt () in SGuid (g, a, e, p)
     | "SU" -> SUi (byt ())
     | "SV" -> let b = num () in let p = byt () in SVer (b, p)
